@@ -21,7 +21,7 @@ import vlib
 
 SD = "WireMutate"
 INVS = ["TypeOK", "BaseDerivable", "BaseZeroIsEither", "MapConsistent", "AcceptDerivable", "MutationApplied", "UnchangedAccepted", "TruncationRejected",
-        "TruncationInsideVariablePartRejected", "OverrunRejected", "DataLengthNeverAccepted", "HugeNeverAccepted", "SpliceDisagrees", "NameNulChecked",
+        "TruncationInsideVariablePartRejected", "OverrunRejected", "DataLengthNeverAccepted", "HugeNeverAccepted", "SpliceDisagrees", "NameNulChecked", "TerminatorChecked",
         "VersionChecked", "EncodingChecked", "NonFlatNeverAccepted"]
 NBASE = {"tiny": 4, "quick": 53, "thorough": 250}
 # deliberately wrong specifications: each must violate the named invariant (vacuity guard for the invariants)
@@ -110,13 +110,13 @@ def run(v, tier, seed):
     if len(muts) != states: raise vlib.MachineryError("TLC found %d states but printed %d mutants" % (states, len(muts)))
 
     # ------------------------------------------------------------------------------------------ the case list
-    muts.sort(key=lambda m: (ENCORD[m["enc"]], m["base"], 0 if m["k"] == "base" else 1, m["k"], m["pos"], m["w"], m["sp"]))
+    muts.sort(key=lambda m: (ENCORD[m["enc"]], m["base"], 0 if m["k"] == "base" else 1, m["k"], m["pos"], m["w"], m["sp"]))      # k: base, splice, term, trunc, word
     nbases = len([m for m in muts if m["enc"] == "msg" and m["k"] == "base"])
     if nbases != nb: raise vlib.MachineryError("the %s menu has %d bases, %d expected" % (menu, nbases, nb))
     basemsg = {m["base"]: hx(m["b"]) for m in muts if m["enc"] == "msg" and m["k"] == "base" and m["v"] == "A"}
     cases = []; seen = set(); byv = collections.Counter(); bykind = collections.Counter(); why = collections.Counter()
     bykind_all = collections.Counter((m["enc"], m["k"]) for m in muts)      # = how often TLC took each action (Trunc / Word / Splice), per encoding
-    for a in ("trunc", "word", "splice"):
+    for a in ("trunc", "word", "splice", "term"):
         if sum(n for (e, k), n in bykind_all.items() if k == a) == 0: raise vlib.MachineryError("vacuity guard: action %s never taken" % a)
     for m in muts:
         key = (m["enc"], m["base"], hx(m["b"]))
@@ -160,7 +160,7 @@ def run(v, tier, seed):
     deaths = []      # (name, rc, case index, stderr tail)
 
     def drive(name, argv, report, cursor, timeout, env=ASAN_ENV, max_deaths=25):
-        for p in (report, cursor):
+        for p in (report, cursor, report + ".err"):
             if os.path.exists(p): os.remove(p)
         start = 0; nd = 0; t0 = time.time()
         while True:
@@ -169,6 +169,8 @@ def run(v, tier, seed):
             if rc == 0 and rows and rows[-1].get("summary"): return rows, nd
             try: idx = int(open(cursor).read().strip())
             except Exception: idx = -1
+            try: err = err + open(report + ".err", errors="replace").read()[-8000:]
+            except OSError: pass
             nd += 1
             if rc == 2 or (idx < 0 and rc not in (66, 67, 3, -6, -11, 134, 139)): raise vlib.MachineryError("%s could not run (exit %s): %s %s" % (name, rc, out[-500:], err[-1500:]))
             deaths.append((name, rc, idx, err[-6000:]))
@@ -306,7 +308,7 @@ def run(v, tier, seed):
              "micro_reader_fields_walked_on_valid_inputs": int(tot["micro_fields_walked"]), "F19_reproductions": f19, "mini_accepts_RB": int(tot["mini_RB_accepted"]),
              "nesting": nest_notes, "oracle_selftest_cases_flagged": st_n, "harness_restarts_after_a_dead_process": len(deaths),
              "tlc": {"wall_s": round(t_tlc, 1), "shards": [{"bases": "%d..%d" % (lo, hi), "distinct": r.distinct, "wall_s": round(r.wall, 1)} for (lo, hi, w), r in zip(shards, res)],
-                     "actions_taken": {a: sum(n for (e, k), n in bykind_all.items() if k == a.lower()) for a in ("Trunc", "Word", "Splice")},
+                     "actions_taken": {a: sum(n for (e, k), n in bykind_all.items() if k == a.lower()) for a in ("Trunc", "Word", "Splice", "Term")},
                      "note": "TLC's -coverage mode does not finish on this specification (deep recursive operators: > 3 min for one base); the action counts are measured from the states TLC printed",
                      "invariants": INVS, "wrong_specifications_rejected": ["%s violates %s" % w for w in wrong]},
              "samples": samples}
